@@ -64,6 +64,9 @@ func checkRuntime(c *Ctx, prop string) {
 	if prop == "C06" || prop == "C05" {
 		rtZeroSize(c, c.scale(20, 400))
 	}
+	if prop == "C05" || prop == "C08" {
+		rtSlots(c, c.scale(18, 300), prop == "C08")
+	}
 	if prop == "C05" {
 		rtRefused(c, c.scale(4, 40), 150)
 		rtTornView(c, c.scale(6, 60))
